@@ -9,7 +9,7 @@
 import numpy as np
 
 from vf import runner, pipeline, sdp
-from vf.denote import canon
+from vf.denote import canon, registered_functions
 from vf.solverstub import CvxStub, MosekStub
 
 
@@ -180,7 +180,7 @@ def declared(m):
     pep = m.pep
     constraints = list(m.constraints)
     lmis = list(m.lmis)
-    leaf = [f for f in Function.list_of_functions if f.get_is_leaf()]
+    leaf = [f for f in registered_functions() if f.get_is_leaf()]
     for f in leaf:
         constraints += list(f.list_of_class_constraints)
         lmis += list(f.list_of_class_psd)
@@ -235,7 +235,7 @@ def _declarations(pep, Function):
     d = {'pep.list_of_constraints': list(pep.list_of_constraints), 'pep.list_of_psd': list(pep.list_of_psd),
          'pep.list_of_performance_metrics': list(pep.list_of_performance_metrics),
          'pep.list_of_functions': list(pep.list_of_functions), 'pep.list_of_points': list(pep.list_of_points)}
-    for i, f in enumerate(Function.list_of_functions):
+    for i, f in enumerate(registered_functions()):
         d['function%d.list_of_constraints' % i] = list(f.list_of_constraints)
         d['function%d.list_of_psd' % i] = list(f.list_of_psd)
     return d
@@ -325,6 +325,7 @@ def cases(tier):
     add("quad", fclass='quad')
     add("composite-inexact", second='convex', steps=['inexact', 'prox'], unused=True)
     add("composite-sub-div", second='convex', steps=['inexact', 'prox'], composite_ops='sub-div')
+    add("composite-inexact-temporary", second='convex', steps=['inexact', 'prox'], temporary_composite=True)
     add("qg-late-leaf", fclass='qg', stationary=False)
     add("function-lmi", function_lmi=True)
     add("function-lmi-and-constraint", function_lmi=True, function_lmi_with_constraint=True, lmis=['one'])
